@@ -7,29 +7,27 @@ Local Open Scope string_scope.
 Local Open Scope list_scope.
 
 (* ---------- which body runs ---------- *)
-Lemma call_dispatches_l : forall ds r st rc l v t self enter d m arg,
+Lemma call_dispatches_l : forall ds r st rc l v t self d m arg,
   wf_impls ds -> register_all empty_registry ds = inl r -> s_funcs st = r_funcs r ->
-  receiver (s_vars st) rc = Some (l, v, t, self, enter) ->
+  receiver (s_vars st) rc = Some (l, v, t, self) ->
   In d ds -> i_type d = t -> In m (i_methods d) ->
-  call st rc (m_name m) arg = invoke st l v self enter m arg.
+  call st rc (m_name m) arg = invoke st l v t self (mk_entry d m) arg.
 Proof.
-  intros ds r st rc l v t self enter d m arg W R F RC Hd Ht Hm.
+  intros ds r st rc l v t self d m arg W R F RC Hd Ht Hm.
   unfold call. rewrite RC, F. subst t. rewrite (dispatch_registered_l ds r d m W R Hd Hm). reflexivity.
 Qed.
 
 (* the receiver an interface variable denotes: its dynamic type is the implementing type it carries *)
-Definition enter_of (i t : name) (p : payload) : option (name * name) :=
-  match p with PStruct _ => Some (i, t) | PPrim _ => None end.
 Lemma receiver_iface_var : forall vs x i t p, alookup x vs = Some (VIface i t p) ->
-  receiver vs (RVar x) = Some (LVar x, VIface i t p, t, p, enter_of i t p).
-Proof. intros. unfold receiver; simpl. rewrite H. destruct p; reflexivity. Qed.
+  receiver vs (RVar x) = Some (LVar x, VIface i t p, t, p).
+Proof. intros. unfold receiver; simpl. rewrite H. reflexivity. Qed.
 Lemma receiver_conc_var : forall vs x t p, alookup x vs = Some (VConc t p) ->
-  receiver vs (RVar x) = Some (LVar x, VConc t p, t, p, None).
+  receiver vs (RVar x) = Some (LVar x, VConc t p, t, p).
 Proof. intros. unfold receiver; simpl. rewrite H. reflexivity. Qed.
 Lemma receiver_ptr : forall vs q x, alookup q vs = Some (VPtr x) -> receiver vs (RPtr q) = receiver vs (RVar x).
 Proof. intros. unfold receiver; simpl. rewrite H. reflexivity. Qed.
 Lemma receiver_elem : forall vs a t es k p, alookup a vs = Some (VArr t es) -> nth_error es k = Some p ->
-  receiver vs (RElem a k) = Some (LElem a k, VConc t p, t, p, None).
+  receiver vs (RElem a k) = Some (LElem a k, VConc t p, t, p).
 Proof. intros. unfold receiver; simpl. rewrite H, H0. reflexivity. Qed.
 
 (* whatever the receiver form, self is a copy of what the receiver holds at the time of the call *)
@@ -37,8 +35,8 @@ Definition payload_of (v : value) : option payload :=
   match v with VConc _ p => Some p | VIface _ _ p => Some p | _ => None end.
 Definition dyn_type (v : value) : option name :=
   match v with VConc t _ => Some t | VIface _ t _ => Some t | _ => None end.
-Lemma receiver_current_l : forall vs rc l v t self enter,
-  receiver vs rc = Some (l, v, t, self, enter) ->
+Lemma receiver_current_l : forall vs rc l v t self,
+  receiver vs rc = Some (l, v, t, self) ->
   read vs l = Some v /\ payload_of v = Some self /\ dyn_type v = Some t /\
   match rc with
   | RVar x => l = LVar x
@@ -46,16 +44,14 @@ Lemma receiver_current_l : forall vs rc l v t self enter,
   | RElem a k => l = LElem a k
   end.
 Proof.
-  unfold receiver; intros vs rc l v t self enter H.
+  unfold receiver; intros vs rc l v t self H.
   destruct (resolve vs rc) as [l0|] eqn:RS; [|discriminate].
   destruct (read vs l0) as [v0|] eqn:RD; [|discriminate].
-  destruct (obj_of v0) as [[[t0 s0] e0]|] eqn:OB; [|discriminate].
+  destruct (obj_of v0) as [[t0 s0]|] eqn:OB; [|discriminate].
   inversion H; subst; clear H.
   split; [assumption|].
   assert (payload_of v = Some self /\ dyn_type v = Some t) as [A B].
-  { destruct v as [t1 p1|i1 t1 p1| |]; simpl in OB; try discriminate.
-    - inversion OB; subst; auto.
-    - destruct p1; inversion OB; subst; auto. }
+  { destruct v as [t1 p1|i1 t1 p1| |]; simpl in OB; try discriminate; inversion OB; subst; auto. }
   split; [assumption|split; [assumption|]].
   destruct rc; simpl in RS.
   - inversion RS; reflexivity.
@@ -99,34 +95,50 @@ Proof.
 Qed.
 
 (* ---------- invoke: self in, self out ---------- *)
-Definition frame0 (st : state) (self : payload) (enter : option (name * name)) (arg : Z) : frame :=
-  {| f_self := self; f_arg := arg; f_statics := s_statics st;
-     f_ctx := match enter with Some c => Some c | None => s_ctx st end; f_out := s_out st |}.
+(* the frame a method starts in: the impl context is the pair of the block that declares it *)
+Definition frame0 (fe : fentry) (self : payload) (arg : Z) (ss : list (string * Z)) (out : list line) : frame :=
+  {| f_self := self; f_arg := arg; f_statics := ss; f_ctx := Some (fe_iface fe, fe_type fe); f_out := out |}.
 
-Lemma invoke_ok_inv : forall st l v self enter meth arg st' z,
-  invoke st l v self enter meth arg = Ok (st', z) ->
-  exists fr', exec_body (frame0 st self enter arg) (m_body meth) = inl fr' /\
-              eval_ret fr' (m_ret meth) = inl z /\
+Lemma run_method_inv : forall cb fe self arg ss out fr' z, run_method cb fe self arg ss out = inl (fr', z) ->
+  exec_body cb (frame0 fe self arg ss out) (m_body (fe_meth fe)) = inl fr' /\ eval fr' (m_ret (fe_meth fe)) = inl z.
+Proof.
+  unfold run_method, frame0; intros cb fe self arg ss out fr' z H.
+  destruct (exec_body cb _ (m_body (fe_meth fe))) as [fr1|x] eqn:B; [|discriminate].
+  destruct (eval fr1 (m_ret (fe_meth fe))) as [z1|x] eqn:E; [|discriminate].
+  inversion H; subst. auto.
+Qed.
+
+Lemma invoke_ok_inv : forall st l v t self fe arg st' z,
+  invoke st l v t self fe arg = Ok (st', z) ->
+  exists fr', run_method (nested_self (s_funcs st) t) fe self arg (s_statics st) (s_out st) = inl (fr', z) /\
               s_vars st' = write (s_vars st) l (with_payload v (f_self fr')) /\
               s_statics st' = f_statics fr' /\ s_out st' = f_out fr' /\
-              s_funcs st' = s_funcs st /\ s_impls st' = s_impls st /\
-              s_ctx st' = match enter with Some _ => None | None => s_ctx st end.
+              s_funcs st' = s_funcs st /\ s_impls st' = s_impls st /\ s_ctx st' = s_ctx st.
 Proof.
-  unfold invoke, frame0; intros st l v self enter meth arg st' z H.
-  destruct (exec_body _ (m_body meth)) as [fr'|[o x]] eqn:B; [|discriminate].
-  destruct (eval_ret fr' (m_ret meth)) as [z0|x] eqn:E; [|discriminate].
+  unfold invoke; intros st l v t self fe arg st' z H.
+  destruct (run_method _ fe self arg (s_statics st) (s_out st)) as [[fr' z0]|[o x]] eqn:B; [|discriminate].
   inversion H; subst; clear H. exists fr'. simpl. repeat split; auto.
 Qed.
 
 (* ---------- statics: what a body can touch ---------- *)
 Definition ctx_keys (c : option (name * name)) (k : string) : Prop := exists n, static_name c n = Some k.
+(* what a nested call may do to the caller's frame: everything but statics/out is as before, no static
+   cell appears or disappears, and only cells in P change *)
+Definition cb_ok (P : string -> Prop) (cb : callback) : Prop :=
+  forall m z fr fr1 r, cb m z fr = inl (fr1, r) ->
+    f_ctx fr1 = f_ctx fr /\ f_self fr1 = f_self fr /\ f_arg fr1 = f_arg fr /\
+    keys (f_statics fr1) = keys (f_statics fr) /\
+    (forall k, ~ P k -> alookup k (f_statics fr1) = alookup k (f_statics fr)).
+Definition is_call (s : stmt) : bool := match s with SCallSelf _ _ _ => true | _ => false end.
+Definition has_calls (b : list stmt) : bool := existsb is_call b.
 
-Lemma exec_stmt_frame : forall fr s fr', exec_stmt fr s = inl fr' ->
+Lemma exec_stmt_frame : forall P cb fr s fr', (is_call s = false \/ cb_ok P cb) ->
+  (forall k, ctx_keys (f_ctx fr) k -> P k) -> exec_stmt cb fr s = inl fr' ->
   f_ctx fr' = f_ctx fr /\ f_arg fr' = f_arg fr /\
   keys (f_statics fr') = keys (f_statics fr) /\
-  (forall k, ~ ctx_keys (f_ctx fr) k -> alookup k (f_statics fr') = alookup k (f_statics fr)).
+  (forall k, ~ P k -> alookup k (f_statics fr') = alookup k (f_statics fr)).
 Proof.
-  intros fr s fr' H. destruct s as [f e|n e|tag es]; simpl in H.
+  intros P cb fr s fr' HC HP H. destruct s as [f e|n e|tag es|tag m e]; simpl in H.
   - destruct (eval fr e); [|discriminate]. destruct (f_self fr); [|discriminate].
     destruct (alookup f fs); [|discriminate]. destruct (int_ok z); [|discriminate].
     inversion H; subst; simpl. auto.
@@ -135,65 +147,133 @@ Proof.
     destruct (alookup k (f_statics fr)) eqn:A; [|discriminate]. destruct (int_ok z); [|discriminate].
     inversion H; subst; simpl. split; [reflexivity|split; [reflexivity|split]].
     + apply keys_aset_present. apply alookup_in_keys. eauto.
-    + intros k' NK. apply alookup_aset_other. intros ->. apply NK. exists n. assumption.
+    + intros k' NK. apply alookup_aset_other. intros ->. apply NK. apply HP. exists n. assumption.
   - destruct (eval_list fr es); [|discriminate]. inversion H; subst; simpl. auto.
+  - destruct HC as [HC|HC]; [discriminate|].
+    destruct (eval fr e); [|discriminate].
+    destruct (cb m z fr) as [[fr1 r]|] eqn:C; [|discriminate].
+    inversion H; subst; simpl. destruct (HC _ _ _ _ _ C) as [A [_ [B [K F]]]]. auto.
 Qed.
 
-Lemma exec_body_frame : forall b fr fr', exec_body fr b = inl fr' ->
+Lemma exec_body_frame : forall P cb b fr fr', (has_calls b = false \/ cb_ok P cb) ->
+  (forall k, ctx_keys (f_ctx fr) k -> P k) -> exec_body cb fr b = inl fr' ->
   f_ctx fr' = f_ctx fr /\ f_arg fr' = f_arg fr /\
   keys (f_statics fr') = keys (f_statics fr) /\
-  (forall k, ~ ctx_keys (f_ctx fr) k -> alookup k (f_statics fr') = alookup k (f_statics fr)).
+  (forall k, ~ P k -> alookup k (f_statics fr') = alookup k (f_statics fr)).
 Proof.
-  induction b as [|s b IH]; simpl; intros fr fr' H.
+  intros P cb. induction b as [|s b IH]; simpl; intros fr fr' HC HP H.
   - inversion H; subst. auto.
-  - destruct (exec_stmt fr s) as [fr1|] eqn:S; [|discriminate].
-    destruct (exec_stmt_frame _ _ _ S) as [C1 [A1 [K1 F1]]].
-    destruct (IH _ _ H) as [C2 [A2 [K2 F2]]].
+  - destruct (exec_stmt cb fr s) as [fr1|] eqn:S; [|discriminate].
+    assert (is_call s = false \/ cb_ok P cb) as HC1.
+    { destruct HC as [HC|HC]; [left|right; assumption]. unfold has_calls in HC. simpl in HC. apply orb_false_iff in HC. tauto. }
+    assert (has_calls b = false \/ cb_ok P cb) as HC2.
+    { destruct HC as [HC|HC]; [left|right; assumption]. unfold has_calls in HC. simpl in HC. apply orb_false_iff in HC. tauto. }
+    destruct (exec_stmt_frame _ _ _ _ _ HC1 HP S) as [C1 [A1 [K1 F1]]].
+    assert (forall k, ctx_keys (f_ctx fr1) k -> P k) as HP1 by (rewrite C1; assumption).
+    destruct (IH _ _ HC2 HP1 H) as [C2 [A2 [K2 F2]]].
     split; [congruence|split; [congruence|split; [congruence|]]].
-    intros k NK. rewrite F2 by (rewrite C1; assumption). apply F1; assumption.
+    intros k NK. rewrite F2 by assumption. apply F1; assumption.
 Qed.
 
-(* with no impl context no static can even be read, let alone written *)
-Lemma exec_body_no_ctx : forall b fr fr', f_ctx fr = None -> exec_body fr b = inl fr' -> f_statics fr' = f_statics fr.
+Lemma run_method_frame : forall P cb fe self arg ss out fr' z,
+  (has_calls (m_body (fe_meth fe)) = false \/ cb_ok P cb) ->
+  (forall k, ctx_keys (Some (fe_iface fe, fe_type fe)) k -> P k) ->
+  run_method cb fe self arg ss out = inl (fr', z) ->
+  keys (f_statics fr') = keys ss /\ (forall k, ~ P k -> alookup k (f_statics fr') = alookup k ss).
 Proof.
-  induction b as [|s b IH]; simpl; intros fr fr' C H.
-  - inversion H; reflexivity.
-  - destruct (exec_stmt fr s) as [fr1|] eqn:S; [|discriminate].
-    assert (f_statics fr1 = f_statics fr /\ f_ctx fr1 = None) as [E1 C1].
-    { destruct s as [f e|n e|tag es]; simpl in S.
-      - destruct (eval fr e); [|discriminate]. destruct (f_self fr); [|discriminate].
-        destruct (alookup f fs); [|discriminate]. destruct (int_ok z); [|discriminate]. inversion S; subst; simpl; auto.
-      - destruct (eval fr e); [|discriminate]. rewrite C in S. simpl in S. discriminate.
-      - destruct (eval_list fr es); [|discriminate]. inversion S; subst; simpl; auto. }
-    rewrite <- E1. apply IH; assumption.
+  intros P cb fe self arg ss out fr' z HC HP H. apply run_method_inv in H as [B _].
+  destruct (exec_body_frame P cb _ (frame0 fe self arg ss out) _ HC HP B) as [_ [_ [K F]]]. auto.
+Qed.
+
+Lemma no_nested_ok : forall P, cb_ok P no_nested.
+Proof. intros P m z fr fr1 r H. discriminate. Qed.
+
+(* a nested self call touches only the statics of the callee's own pair; with a well-typed function
+   table that pair has the caller's type *)
+Definition funcs_typed (fs : list (string * fentry)) : Prop :=
+  forall t n fe, alookup (method_key t n) fs = Some fe -> fe_type fe = t.
+Definition type_keys (t : name) (k : string) : Prop := exists i n, k = static_key i t n.
+
+Lemma nested_self_inv : forall funcs t m z fr fr1 r, nested_self funcs t m z fr = inl (fr1, r) ->
+  exists fe fr', alookup (method_key t m) funcs = Some fe /\
+    run_method no_nested fe (f_self fr) z (f_statics fr) (f_out fr) = inl (fr', r) /\
+    fr1 = {| f_self := f_self fr; f_arg := f_arg fr; f_statics := f_statics fr'; f_ctx := f_ctx fr; f_out := f_out fr' |}.
+Proof.
+  unfold nested_self; intros funcs t m z fr fr1 r H.
+  destruct (alookup (method_key t m) funcs) as [fe|]; [|discriminate].
+  destruct (run_method no_nested fe (f_self fr) z (f_statics fr) (f_out fr)) as [[fr' z0]|] eqn:R; [|discriminate].
+  inversion H; subst. eauto.
+Qed.
+
+Lemma nested_self_ok_any : forall funcs t, cb_ok (fun _ => True) (nested_self funcs t).
+Proof.
+  intros funcs t m z fr fr1 r H. apply nested_self_inv in H as [fe [fr' [_ [R ->]]]]. simpl.
+  destruct (run_method_frame (fun _ => True) no_nested _ _ _ _ _ _ _ (or_intror (no_nested_ok _)) (fun _ _ => I) R) as [K _].
+  repeat split; auto. intros k NK. exfalso. apply NK. exact I.
+Qed.
+Lemma nested_self_ok_typed : forall funcs t, funcs_typed funcs -> cb_ok (type_keys t) (nested_self funcs t).
+Proof.
+  intros funcs t FT m z fr fr1 r H. apply nested_self_inv in H as [fe [fr' [L [R ->]]]]. simpl.
+  assert (forall k, ctx_keys (Some (fe_iface fe, fe_type fe)) k -> type_keys t k) as HP.
+  { intros k [n E]. simpl in E. inversion E. rewrite (FT _ _ _ L). exists (fe_iface fe), n. reflexivity. }
+  destruct (run_method_frame (type_keys t) no_nested _ _ _ _ _ _ _ (or_intror (no_nested_ok _)) HP R) as [K F].
+  repeat split; auto.
+Qed.
+
+Lemma registered_funcs_typed : forall ds r, wf_impls ds -> register_all empty_registry ds = inl r -> funcs_typed (r_funcs r).
+Proof.
+  intros ds r W R t n fe H. destruct (dispatch_sound_l _ _ _ _ _ W R H) as [d [m [_ [Ht [_ [_ ->]]]]]]. exact Ht.
 Qed.
 
 Lemma call_ok_inv : forall st rc m arg st' z, call st rc m arg = Ok (st', z) ->
-  exists l v t self enter meth,
-    receiver (s_vars st) rc = Some (l, v, t, self, enter) /\
-    alookup (method_key t m) (s_funcs st) = Some meth /\
-    invoke st l v self enter meth arg = Ok (st', z).
+  exists l v t self fe,
+    receiver (s_vars st) rc = Some (l, v, t, self) /\
+    alookup (method_key t m) (s_funcs st) = Some fe /\
+    invoke st l v t self fe arg = Ok (st', z).
 Proof.
   unfold call; intros st rc m arg st' z H.
-  destruct (receiver (s_vars st) rc) as [[[[[l v] t] self] enter]|] eqn:RC; [|discriminate].
-  destruct (alookup (method_key t m) (s_funcs st)) as [meth|] eqn:F; [|discriminate].
-  exists l, v, t, self, enter, meth. auto.
+  destruct (receiver (s_vars st) rc) as [[[[l v] t] self]|] eqn:RC; [|discriminate].
+  destruct (alookup (method_key t m) (s_funcs st)) as [fe|] eqn:F; [|discriminate].
+  exists l, v, t, self, fe. auto.
 Qed.
 
-(* a call can only change the statics of the pair whose context it runs in; the key set never changes *)
-Lemma call_statics_l : forall st rc m arg st' z, call st rc m arg = Ok (st', z) ->
-  keys (s_statics st') = keys (s_statics st) /\
-  forall l v t self enter, receiver (s_vars st) rc = Some (l, v, t, self, enter) ->
-    forall k, ~ ctx_keys (match enter with Some c => Some c | None => s_ctx st end) k ->
-      alookup k (s_statics st') = alookup k (s_statics st).
+(* no static cell ever appears or disappears in a call; the impl context is put back *)
+Lemma call_keys_l : forall st rc m arg st' z, call st rc m arg = Ok (st', z) ->
+  keys (s_statics st') = keys (s_statics st) /\ s_ctx st' = s_ctx st.
 Proof.
   intros st rc m arg st' z H.
-  destruct (call_ok_inv _ _ _ _ _ _ H) as [l [v [t [self [enter [meth [RC [F I]]]]]]]].
-  destruct (invoke_ok_inv _ _ _ _ _ _ _ _ _ I) as [fr' [B [_ [_ [S _]]]]].
-  destruct (exec_body_frame _ _ _ B) as [_ [_ [K FR]]]. simpl in K, FR.
-  split; [rewrite S; assumption|].
-  intros l0 v0 t0 self0 enter0 RC0 k NK. rewrite RC in RC0. inversion RC0; subst.
-  rewrite S. apply FR. assumption.
+  destruct (call_ok_inv _ _ _ _ _ _ H) as [l [v [t [self [fe [RC [F IV]]]]]]].
+  destruct (invoke_ok_inv _ _ _ _ _ _ _ _ _ IV) as [fr' [B [_ [S [_ [_ [_ C]]]]]]].
+  destruct (run_method_frame (fun _ => True) _ _ _ _ _ _ _ _ (or_intror (nested_self_ok_any _ _)) (fun _ _ => I) B) as [K _].
+  split; [rewrite S; assumption|assumption].
+Qed.
+
+(* a call on a receiver of dynamic type t changes no static of a pair with another type ... *)
+Lemma call_statics_type_l : forall st rc m arg st' z l v t self, funcs_typed (s_funcs st) ->
+  call st rc m arg = Ok (st', z) -> receiver (s_vars st) rc = Some (l, v, t, self) ->
+  forall k, ~ type_keys t k -> alookup k (s_statics st') = alookup k (s_statics st).
+Proof.
+  intros st rc m arg st' z l v t self FT H RC k NK.
+  destruct (call_ok_inv _ _ _ _ _ _ H) as [l0 [v0 [t0 [self0 [fe [RC0 [F IV]]]]]]].
+  rewrite RC in RC0. inversion RC0; subst l0 v0 t0 self0.
+  destruct (invoke_ok_inv _ _ _ _ _ _ _ _ _ IV) as [fr' [B [_ [S _]]]].
+  assert (forall k, ctx_keys (Some (fe_iface fe, fe_type fe)) k -> type_keys t k) as HP.
+  { intros k0 [n E]. simpl in E. inversion E. rewrite (FT _ _ _ F). exists (fe_iface fe), n. reflexivity. }
+  destruct (run_method_frame (type_keys t) _ _ _ _ _ _ _ _ (or_intror (nested_self_ok_typed _ _ FT)) HP B) as [_ FR].
+  rewrite S. apply FR; assumption.
+Qed.
+(* ... and when the method's body makes no nested call, only statics of the pair that declares it *)
+Lemma call_statics_leaf_l : forall st rc m arg st' z l v t self fe,
+  call st rc m arg = Ok (st', z) -> receiver (s_vars st) rc = Some (l, v, t, self) ->
+  alookup (method_key t m) (s_funcs st) = Some fe -> has_calls (m_body (fe_meth fe)) = false ->
+  forall k, ~ ctx_keys (Some (fe_iface fe, fe_type fe)) k -> alookup k (s_statics st') = alookup k (s_statics st).
+Proof.
+  intros st rc m arg st' z l v t self fe H RC F HC k NK.
+  destruct (call_ok_inv _ _ _ _ _ _ H) as [l0 [v0 [t0 [self0 [fe0 [RC0 [F0 IV]]]]]]].
+  rewrite RC in RC0. inversion RC0; subst l0 v0 t0 self0. rewrite F in F0. inversion F0; subst fe0.
+  destruct (invoke_ok_inv _ _ _ _ _ _ _ _ _ IV) as [fr' [B [_ [S _]]]].
+  destruct (run_method_frame (ctx_keys (Some (fe_iface fe, fe_type fe))) _ _ _ _ _ _ _ _ (or_introl HC) (fun _ h => h) B) as [_ FR].
+  rewrite S. apply FR; assumption.
 Qed.
 
 Lemma ctx_keys_other_pair : forall i t i' t' n', no_colon i = true -> no_colon i' = true ->
@@ -202,6 +282,17 @@ Proof.
   intros i t i' t' n' Hi Hi' Ht Ht' NE [n H]. unfold static_name in H.
   assert (static_key i t n = static_key i' t' n') as E by congruence.
   apply static_key_inj in E as [-> [-> _]]; auto.
+Qed.
+Lemma type_keys_other_type : forall t i' t' n', no_colon i' = true -> no_colon t = true -> no_colon t' = true ->
+  no_colon n' = true -> t' <> t -> ~ type_keys t (static_key i' t' n').
+Proof.
+  intros t i' t' n' Hi' Ht Ht' Hn' NE [i [n E]].
+  assert (no_colon i = true) as Hi.
+  { assert (ncolon (static_key i' t' n') = ncolon (static_key i t n)) as N by (rewrite E; reflexivity).
+    unfold static_key in N. rewrite !ncolon_app in N. simpl in N.
+    apply no_colon_ncolon in Hi'. apply no_colon_ncolon in Ht. apply no_colon_ncolon in Ht'. apply no_colon_ncolon in Hn'.
+    apply no_colon_ncolon. lia. }
+  apply static_key_inj in E as [_ [E _]]; auto.
 Qed.
 
 (* ---------- binding ---------- *)
@@ -254,7 +345,7 @@ Proof.
   induction cs as [|[m c] cs IH]; simpl; intros st tag rc d st' H.
   - inversion H; reflexivity.
   - destruct (call st rc m (d + c)%Z) as [[st1 z]|] eqn:C; [|discriminate].
-    apply IH in H. simpl in H. rewrite H. apply (call_statics_l _ _ _ _ _ _ C).
+    apply IH in H. simpl in H. rewrite H. apply (call_keys_l _ _ _ _ _ _ C).
 Qed.
 
 Lemma step_keys : forall hs st o st', step hs st o = Ok st' -> keys (s_statics st') = keys (s_statics st).
@@ -263,7 +354,7 @@ Proof.
   - apply bind_ok_inv in H as [sv [t [p [_ [_ [_ ->]]]]]]. reflexivity.
   - destruct (alookup x (s_vars st)); inversion H; reflexivity.
   - destruct (call st r m arg) as [[st1 z]|] eqn:C; [|discriminate]. inversion H; subst; simpl.
-    apply (call_statics_l _ _ _ _ _ _ C).
+    apply (call_keys_l _ _ _ _ _ _ C).
   - destruct (find _ hs) as [hh|]; [|discriminate].
     match type of H with match ?E with _ => _ end = _ => destruct E as [st1|] eqn:EN; [|discriminate] end.
     destruct (run_calls st1 h (RVar (h_param hh)) d (h_calls hh)) as [st2|] eqn:RCs; [|discriminate].
